@@ -90,6 +90,14 @@ def _mol_with_layout(draw, kinds, max_atoms=7):
     n = len(M.ALL[mol["tpl"]]["Z"])
     if draw(st.integers(0, 9)) < 3:
         mo = draw(S.rigid_motion(n, allow_identity=False, translate=False))
+        if mo.get("axis") in ("+x", "-x"):
+            # Excluded by construction (and counted through the label below): the recorded C02 defect freezes the local
+            # frame inside a 4.5e-4 rad cone around +-x, so the returned energy surface is discontinuous at the cone
+            # boundary; a 4e-3 A stencil centred on or near such a bond straddles it. Measured: PM6_SP NO+ tilted 1e-6 rad
+            # off -x gave an FD residual of 4.2e-6 eV/A against the 2e-5 tolerance -- the known defect leaking into this
+            # property's margin. The same orientation classes are generated on the y axis instead; C02 owns the x axis.
+            mo["remapped_from"] = mo["axis"]
+            mo["axis"] = "+y" if mo["axis"] == "+x" else "-y"
         case["motion"] = mo
     layout = draw(st.sampled_from(["single", "single", "homog", "padded"]))
     if layout == "homog":
@@ -133,6 +141,8 @@ def _labels(case, Z):
         lab.append("uhf_singlet")
     if case.get("motion"):
         lab.append("motion:" + case["motion"]["kind"])
+        if case["motion"].get("remapped_from"):
+            lab.append("excluded_by_construction:xaxis_cone_neighbourhood")
     return lab
 
 
